@@ -1021,9 +1021,150 @@ fn update_subcommands(rng: &mut Rng, st: &mut Stats) {
     }
 }
 
+// ------------------------------------------------------------------ update frame over an enum with flattened child enums
+
+#[derive(Subcommand, Clone, Debug, PartialEq)]
+pub enum SubV {
+    Push {
+        #[arg(long)]
+        r: Option<u32>,
+        #[arg(long)]
+        j: Option<u32>,
+    },
+    Save {
+        #[arg(long)]
+        m: Option<String>,
+    },
+}
+
+#[derive(Parser, Clone, Debug, PartialEq)]
+#[command(name = "uf")]
+pub enum UF {
+    Status {
+        #[arg(long)]
+        limit: Option<u32>,
+    },
+    #[command(flatten)]
+    A(SubU),
+    #[command(flatten)]
+    B(SubV),
+}
+
+fn arb_subv(rng: &mut Rng) -> SubV {
+    if rng.coin() {
+        SubV::Push { r: opt(rng, |r| r.below(100) as u32), j: opt(rng, |r| r.below(100) as u32) }
+    } else {
+        SubV::Save { m: opt(rng, word) }
+    }
+}
+
+fn arb_uf(rng: &mut Rng) -> UF {
+    match rng.below(3) {
+        0 => UF::Status { limit: opt(rng, |r| r.below(100) as u32) },
+        1 => UF::A(arb_subu(rng)),
+        _ => UF::B(arb_subv(rng)),
+    }
+}
+
+fn subv_subset(rng: &mut Rng, y: &SubV) -> (Vec<String>, SubV) {
+    match y {
+        SubV::Push { r, j } => {
+            let (kr, kj) = (rng.coin(), rng.coin());
+            let mut v = vec!["push".to_string()];
+            let nr = r.filter(|_| kr);
+            let nj = j.filter(|_| kj);
+            if let Some(r) = nr {
+                v.push(format!("--r={}", r));
+            }
+            if let Some(j) = nj {
+                v.push(format!("--j={}", j));
+            }
+            (v, SubV::Push { r: nr, j: nj })
+        }
+        SubV::Save { m } => {
+            let km = rng.coin();
+            let mut v = vec!["save".to_string()];
+            let nm = m.clone().filter(|_| km);
+            if let Some(m) = &nm {
+                v.push(format!("--m={}", m));
+            }
+            (v, SubV::Save { m: nm })
+        }
+    }
+}
+
+fn uf_expected(held: &UF, named: &UF) -> UF {
+    match (held, named) {
+        (UF::Status { limit }, UF::Status { limit: nl }) => UF::Status { limit: nl.or(*limit) },
+        (UF::A(h), UF::A(n)) => UF::A(subu_expected(Some(h), n)),
+        (UF::B(SubV::Push { r, j }), UF::B(SubV::Push { r: nr, j: nj })) => UF::B(SubV::Push { r: nr.or(*r), j: nj.or(*j) }),
+        (UF::B(SubV::Save { m }), UF::B(SubV::Save { m: nm })) => UF::B(SubV::Save { m: nm.clone().or(m.clone()) }),
+        _ => named.clone(),
+    }
+}
+
+fn update_flattened_enums(rng: &mut Rng, st: &mut Stats) {
+    st.count("type.UF");
+    let held = arb_uf(rng);
+    let y = arb_uf(rng);
+    let (toks, named) = match &y {
+        UF::Status { limit } => {
+            let nl = limit.filter(|_| rng.coin());
+            let mut v = vec!["status".to_string()];
+            if let Some(l) = nl {
+                v.push(format!("--limit={}", l));
+            }
+            (v, UF::Status { limit: nl })
+        }
+        UF::A(x) => {
+            let (v, n) = subu_subset(rng, x);
+            (v, UF::A(n))
+        }
+        UF::B(x) => {
+            let (v, n) = subv_subset(rng, x);
+            (v, UF::B(n))
+        }
+    };
+    let mut uargv = vec!["prog".to_string()];
+    uargv.extend(toks);
+    let group = |u: &UF| match u {
+        UF::Status { .. } => 0,
+        UF::A(_) => 1,
+        UF::B(_) => 2,
+    };
+    let stratum = match (group(&held), group(&y)) {
+        (a, b) if a == b && uf_expected(&held, &named) != named => "same-variant",
+        (a, b) if a == b => "same-child",
+        (_, 0) => "to-own-variant",
+        (0, _) => "own-variant-to-flattened-child",
+        _ => "flattened-child-to-other-flattened-child",
+    };
+    st.eval();
+    st.nontrivial(mix(hash_str("UF"), hash_str(&format!("{:?}{:?}", held, uargv))));
+    let mut u = held.clone();
+    match catch(|| u.try_update_from(uargv.clone())) {
+        Err(p) => st.violation(format!("panic:update@{}", p.loc), format!("{} | UF argv={:?}", p.msg, uargv)),
+        Ok(Err(e)) => st.violation("c15:update-rejected", format!("UF: update of {:?} with {:?} rejected: {:?}", held, uargv, e.kind())),
+        Ok(Ok(())) => {
+            st.count(&format!("update.flattened-enum.{}", stratum));
+            let want = uf_expected(&held, &named);
+            if u != want {
+                st.violation(format!("c15:update:flattened-enum-wrong:{}", stratum), format!("UF: {:?} updated with {:?} is {:?}, expected {:?}", held, uargv, u, want));
+            }
+        }
+    }
+    // and the line parsed afresh is the named value
+    st.eval();
+    match catch(|| UF::try_parse_from(uargv.clone())) {
+        Ok(Ok(v)) if v == named => st.count("parse.flattened-enum.ok"),
+        other => st.violation("c15:flattened-enum-parse", format!("UF: {:?} parsed as {:?}, expected {:?}", uargv, other.map(|r| r.map_err(|e| e.kind())).map_err(|p| p.msg), named)),
+    }
+}
+
 pub fn case(seed: u64, st: &mut Stats) {
     let mut rng = Rng::new(seed);
-    match rng.below(11) {
+    match rng.below(12) {
+        11 => update_flattened_enums(&mut rng, st),
         10 => check::<N>(&mut rng, st),
         9 => update_subcommands(&mut rng, st),
         0 => check::<A>(&mut rng, st),
